@@ -44,6 +44,12 @@ CLAIMED["C09"] = dict(engine="keys", technique="TLA+ specification of the abstra
     text="KeyEncoding.tla defines the abstract build state (label, command, declared inputs with content or absence, outputs, fingerprint, platform or multiplatform, dependency digests) and Enc, the framed byte stream hash_target.go writes; TLC proves Enc injective on a universe that contains every adjacent-component boundary shift and list-separator case (and shows the unframed encoding of the pinned tree is not). Every state is materialised and hashed by the real GetTargetChangeHash under xxh3 and sha256: the number of distinct real keys must equal the number of abstract states, and re-declaring a state with shuffled inputs/outputs/dependency digests, a fresh fingerprint map and a different workspace root must give the same key.",
     note="Universe: 2 labels sharing a prefix, 2 commands, 3 input names incl. one containing ',', contents '' / 'x' (/ 'xx'), absent files, fingerprint keys/values containing '=', output sets {o,p} vs {o,p as one name}, 2-3 platforms incl. multiplatform-cache, 0-2 dependency digests: 33 696 states (quick), ~350 000 (thorough). Trusted: TLC, no hash collisions among the enumerated states.")
 
+CLAIMED["C06"] = dict(engine="restore", technique="TLA+ function specification whose states are all (cached tree, prior destination state) pairs, enumerated by TLC and replayed into the real output handlers (enumerated-case conformance)",
+    category="model_checking", design_ref="DESIGN.md section 4.5, section 7 C06",
+    text="Restore.tla enumerates every directory tree (files with content and executable bit, symlinks, empty directories, one level of sub-directories, duplicate contents, names with a space and a leading dash) and file output, each with every applicable prior state of the destination (identical, absent, parent absent, modified, truncated, stale extra entries at the root and nested, an entry removed, mode bits flipped, symlink retargeted, a file where the directory should be, emptied, read-only sub-directory); RestoreExact states the postcondition. Every pair is written through the real FileOutputHandler / DirectoryOutputHandler into a real CAS, the destination put into the prior state, Load called, and the recursive listing compared with the cached one.",
+    note="Trees of depth 2 with at most 2 root entries and 1 (quick) / 2 (thorough) entries per sub-directory; contents '' 'x' ('y'); xxh3 on all cases, sha256 on a sample. Trusted: TLC, the harness's materialise/listing functions, running as root (permission-based priors do not obstruct).")
+CLAIMED["C04"]["text"] += " Directory restore: DirLoad.tla models the per-file download goroutines, the error channel and WaitGroup of DirectoryOutputHandler.Load; TLC checks deadlock freedom and FaultIsError for every subset of unreadable blobs; the real Load is then driven with every fault subset on flat, nested and mixed directories inside a synctest bubble and must return an error (or the exact tree when nothing is faulty)."
+
 PENDING = "check not built yet in this round (specification and binding planned in DESIGN.md section 7); not claimed until its quick tier is registered"
 
 checks, na = [], []
@@ -80,6 +86,7 @@ manifest = {
    {"name": "walker", "path": "spec/Walker.tla + spec/WalkerTrace.tla + harness/walkdrv + vlib/walker_engine.py", "serves_properties": ["C03", "C04", "C05"], "kind_free_text": "exhaustive TLC over all small DAGs; trace validation of real executions under controlled schedules"},
    {"name": "history", "path": "spec/GrogBuild.tla + spec/GrogBuildGen.tla + vlib/build_engine.py + vlib/checks/_hist.py", "serves_properties": ["C01", "C02", "C05", "C13", "C14", "C15"], "kind_free_text": "exhaustive TLC over histories; TLC-generated behaviours replayed into the real binary"},
    {"name": "keys", "path": "spec/KeyEncoding.tla + harness/cmd/h/keys.go + vlib/checks/c09.py", "serves_properties": ["C09"], "kind_free_text": "TLC-enumerated universe of key states, real hashing compared by partition"},
+   {"name": "restore", "path": "spec/Restore.tla + spec/DirLoad.tla + harness/restoredrv + vlib/checks/c06.py", "serves_properties": ["C06", "C04"], "kind_free_text": "TLC-enumerated restore cases replayed into the real handlers; read-fault subsets under synctest"},
    {"name": "labels", "path": "spec/Labels.tla + harness/cmd/h/labels.go + vlib/checks/c17.py", "serves_properties": ["C17"], "kind_free_text": "TLC-enumerated function specification, reference table replayed into the real API"},
  ],
  "checks": checks,
